@@ -231,6 +231,9 @@ class Check:
         rc = 0
         rdir = os.environ.get("VERIF_REPLAY_DIR", os.path.join(VERIF, "replays"))
         os.makedirs(rdir, exist_ok=True)
+        for old in os.listdir(rdir):          # replays of an earlier run of this check are stale
+            if old.startswith(self.pid + "-") and old.endswith(".json"):
+                os.remove(os.path.join(rdir, old))
         seen = {}
         for sig, desc, rep in new:
             seen.setdefault(sig, []).append((desc, rep))
